@@ -4,6 +4,7 @@ HARNESSES = {
     'c01': dict(flavour='asan', srcs=['c01.cpp']),
     'engine': dict(flavour='asan', srcs=['engine.cpp']),
     'c11': dict(flavour='asan', srcs=['c11.cpp']),
+    'c13': dict(flavour='asan', srcs=['c13.cpp']),
 }
 
 PROPS = {
@@ -64,6 +65,21 @@ PROPS = {
              'one prerun per tick per live plugin object; ASan on the discard path. Non-trivial = a tick in which '
              '>=1 instance is discarded while >=1 survives.',
         assumptions=['remove-and-re-create within one tick gap is not generated (property: absent for at least one tick)'],
+    ),
+    'C13': dict(
+        harness='c13', level='exploration',
+        quick=dict(shards=8, n=1500, size=100),
+        thorough=dict(shards=16, n=60000, size=100),
+        rule='rapidcheck stateful generation: base config of 1-3 rulesets (duplicate names allowed, all 8 drop-in '
+             'permission combinations, 0-2 base prekill hooks) and a sequence of <=12 operations over 4 tags: add / '
+             're-add (1-2 rulesets replacing detectors and/or actions, 0-2 hooks), remove, refused adds (unknown '
+             'target, part not opened up, failing plugin init, unknown plugin, engine-stage refusal of a later '
+             'ruleset), through DropInServiceAdaptor and through Engine directly. After every operation one probe '
+             'tick + Stats + firePrekillHook on 3 cgroups is compared with the reference model; finally '
+             'remove(T) is compared with a second real engine run on the history without T. Non-trivial = a '
+             're-add of a live tag that is not the newest, or a refused add after >=1 success.',
+        assumptions=['refused adds are only issued for tags that are not live (whether the old content of the same '
+                     'tag survives a refused re-add is not fixed by the property)'],
     ),
 }
 
